@@ -588,9 +588,11 @@ class Block:
                                     for j in range(w.width):
                                         shift = w.width - j - 1
                                         rel_i = (i//sustain_count) * sustain_count
-                                        if rel_i - shift >= 0:
+                                        if (rel_i - shift >= 0
+                                            and df.applies_to_trial((rel_i - shift)//self.sustain_count(df) + 1)):
                                             args.append(results[df.name][rel_i - shift])
                                         else:
+                                            # before the first trial, or a derived factor without a level there
                                             args.append(None)
                                 if w.width > 1:
                                     args = list(chunk_dict(args, w.width))
